@@ -174,7 +174,7 @@ type fragReader struct {
 	once    bool          // only the failAt-th call fails
 }
 
-// seekFrag is a fragReader that can also seek, like a bytes.Reader or a file.
+// seekFrag is a fragReader that can also seek and tell how much is left, like a bytes.Reader (or, for Seek, a file).
 type seekFrag struct{ *fragReader }
 
 func (s seekFrag) Seek(off int64, whence int) (int64, error) {
@@ -194,6 +194,16 @@ func (s seekFrag) Seek(off int64, whence int) (int64, error) {
 	}
 	s.pos = int(p)
 	return p, nil
+}
+
+// Len is what is left to read (bytes.Reader, bytes.Buffer and strings.Reader have it).
+func (s seekFrag) Len() int {
+	s.mu.Lock()
+	defer s.mu.Unlock()
+	if s.pos >= len(s.data) {
+		return 0
+	}
+	return len(s.data) - s.pos
 }
 
 func srcPos(f *fragReader) int {
